@@ -81,12 +81,16 @@ func runC05(c *Ctx) {
 		depth = 4
 	}
 	c.Exhaustive = true
-	c.Rule = fmt.Sprintf("all histories of depth <= %d over 22 grouping-policy calls (single, batch, Ex, update, batch update, filtered removal, ClearPolicy, LoadPolicy, SavePolicy) on a 3-name universe, each history ending with the listing handed straight back to the batch removal, for the plain manager (also one installed with SetRoleManager on the empty policy, with Enforce probes), the domain manager (2 domains) and two role definitions (g, g2), with an auto-saving adapter; after every call HasLink over the whole universe, GetRoles, GetUsers and the listed grouping rules are compared with the Lean model and with reachability through the listed rules (spec); all histories of the same depth over 8 batch calls on a conditional role definition (g = _, _, (_, _); implementation only: live vs rebuilt from the listed rules); plus seeded random histories incl. over-long rules; non-trivial = some call changed the graph and some call was refused; distinct = whole history", depth)
 	names := []string{"a", "b", "c"}
 	// plain manager
 	L := [][]string{{"a", "b"}, {"b", "c"}, {"c", "a"}, {"a", "c"}}
 	cfg := &HistCfg{Name: "plain", MS: rbacSpec(false, false), Opts: CaseOpts{Adapter: true}, Depth: depth,
 		Alphabet: groupingAlphabet("g", L, []string{"b", "a"}), Probes: linkProbes("g", names, nil)}
+	dDom, d2 := 2, 2
+	if c.Thorough() {
+		dDom, d2 = depth, 3
+	}
+	c.Rule = fmt.Sprintf("all histories over %d grouping-policy calls (single, batch, Ex, update, batch update, filtered removal, ClearPolicy, LoadPolicy, SavePolicy) on a 3-name universe with an auto-saving adapter: depth <= %d for the plain manager, depth <= %d for a plain manager installed with SetRoleManager on the empty policy (with Enforce probes), depth <= %d for the domain manager (2 domains), depth <= %d for two role definitions (g, g2; the calls of both, single add/remove from one name only, no SavePolicy); plain and domain histories that leave two or more rules listed end with the listing handed straight back to the batch removal; after every call HasLink over the whole universe, GetRoles, GetUsers and the listed grouping rules are compared with the Lean model and with reachability through the listed rules (spec); a reload that a failing role manager rejects at its 1st..4th link must leave the graph mirroring the listed rules (implementation only); a conditional role definition (g = _, _, (_, _)): all histories of depth <= %d over 12 calls (single / batch add and remove, filtered removal, update, policy batches, ClearPolicy, BuildRoleLinks), live vs rebuilt from the listed rules and vs a plain RBAC model holding the same rules, on the implementation, and link chains around the hierarchy limit plus grouping calls through the enforcer compared with the Lean model of the conditional managers (case condrm); plus seeded random histories incl. over-long rules; non-trivial = some call changed the graph and some call was refused; distinct = whole history", len(cfg.Alphabet), depth, depth-1, dDom, d2, depth)
 	// every history ends with the grouping listing handed straight back to the batch removal
 	// (RemoveGroupingPolicies(GetGroupingPolicy())): no rule and no link may be left
 	handBack := func(gt string, probes []EOp) func(c *Ctx, s *Sess, hist []EOp) {
